@@ -1104,8 +1104,10 @@ def merge(fs):
                     warn('%s already in output' % k)
             else:
                 propd = dict([(p, getattr(v, p)) for p in v.ncattrs()])
+                # own data: values= alone would make the variable a view
                 outf.createVariable(
-                    k, v.dtype.char, v.dimensions, values=v, **propd)
+                    k, v.dtype.char, v.dimensions, values=v[...].copy(),
+                    **propd)
 
     return outf
 
